@@ -10,7 +10,7 @@
    and each is a legal response. *)
 From Coq Require Import List Bool Arith.
 Import ListNotations.
-From Verif Require Import Common.Base Model.AnswerDir Proofs.AnswerDir.
+From Verif Require Import Common.Base Model.AnswerDir Proofs.AnswerDir Proofs.AnswerDirTotal.
 
 (* `legal` is the RFC 3264 6.1 table *)
 Theorem c08_legal_is_rfc3264 : forall o a, o <> DUnk ->
@@ -58,6 +58,20 @@ Theorem c08_partial_any_state : forall p secs mid ds,
   answer_of p secs mid = Ok ds -> all_legal secs ds = true.
 Proof. exact answer_legal. Qed.
 Print Assumptions c08_partial_any_state.
+
+(* CreateAnswer always finds a transceiver for every offered section (no
+   errPeerConnTranscieverMidNil, no index panic), whatever the state, the offer
+   and the local operations in between: the theorems above are not vacuous *)
+Theorem c08_answer_total : forall p secs mid, exists ds, answer_of p secs mid = Ok ds.
+Proof. exact answer_total. Qed.
+Print Assumptions c08_answer_total.
+
+(* c08_partial and totality in one statement *)
+Theorem c08_partial_exists_legal : forall os secs mid,
+  setsender_guarded (set_remote (run_history os) secs) mid = true ->
+  exists ds, answer_of (run_history os) secs mid = Ok ds /\ all_legal secs ds = true.
+Proof. exact history_answer_exists_legal. Qed.
+Print Assumptions c08_partial_exists_legal.
 
 Theorem c08_reachable_states_wf : forall os, wf (run_history os).
 Proof. exact wf_run. Qed.
